@@ -93,7 +93,16 @@ func authDouble(rec *recorder, name string) runtime.Authenticator {
 	})
 }
 
-func buildAPI(doc *loads.Document, reg Reg, rec *recorder) *untyped.API {
+// buildAPI performs the registrations on a fresh API. The operation handlers return the payload "ok",
+// except for an operation of the description that has no (own or global) produces: with no media type
+// to send a payload in, a well-behaved handler returns nothing.
+func buildAPI(doc *loads.Document, s apib.Spec, reg Reg, rec *recorder) *untyped.API {
+	noPayload := set{}
+	for _, o := range s.Ops {
+		if len(effMedia(o.Produces, s.Produces)) == 0 {
+			noPayload[normOp(o.Method, o.Path)] = true
+		}
+	}
 	api := untyped.NewAPI(doc)
 	if !reg.JSONDefaults {
 		api.WithoutJSONDefaults()
@@ -108,6 +117,9 @@ func buildAPI(doc *loads.Document, reg Reg, rec *recorder) *untyped.API {
 		key := normOp(o.Method, o.Path)
 		api.RegisterOperation(o.Method, o.Path, runtime.OperationHandlerFunc(func(interface{}) (interface{}, error) {
 			rec.handler = append(rec.handler, key)
+			if noPayload[key] {
+				return nil, nil
+			}
 			return "ok", nil
 		}))
 	}
@@ -343,7 +355,7 @@ func check(c Case) (string, string) {
 		return "", "description does not load: " + err.Error()
 	}
 	rec := &recorder{}
-	api := buildAPI(doc, c.Reg, rec)
+	api := buildAPI(doc, c.Spec, c.Reg, rec)
 	vo := runValidate(api)
 	if c.Req == nil {
 		return judgeValidate(c.Spec, c.Reg, vo)
